@@ -436,6 +436,8 @@ func buildPrograms(tier string) *listStream {
 			}
 		}
 	}
+	buildArity(s, &k, tier)
+	buildGensym(s, &k, tier)
 	for _, t := range progTop {
 		k++
 		s.add(inst(t, k), "", "programs:top")
@@ -445,4 +447,106 @@ func buildPrograms(tier string) *listStream {
 		s.add(inst("(let [q 1] "+t+")", k), "", "programs:top-in-let")
 	}
 	return s
+}
+
+// ---- every kind of formal list x every way to define x every call arity x every call route ----------
+
+var formalLists = []struct {
+	formals string
+	n       int // number of declared formals (before & rest)
+}{
+	{"", 0}, {"x", 1}, {"#x", 1}, {"x y", 2}, {"x #y", 2}, {"#x y", 2}, {"#x #y", 2}, {"& r", 0}, {"x & r", 1}, {"#x & r", 1},
+	{"x #y & r", 2}, {"?x", 1}, {"$x", 1}, {"x: y", 2}, {"#x #y #z", 3},
+}
+
+func buildArity(s *listStream, k *int, tier string) {
+	argSets := [][]string{{"5", "6", "7", "8", "9"}, {"(+ 2 3)", "u", "[1]", "(hash a:1)", "(fn [] 1)"}}
+	if tier != "thorough" {
+		argSets = argSets[:2]
+	}
+	for _, fl := range formalLists {
+		bodies := []string{"1"}
+		if strings.Contains(fl.formals, "#x") {
+			bodies = append(bodies, "(force #x)", "(str (substitute #x))")
+		}
+		for _, body := range bodies {
+			for nargs := 0; nargs <= fl.n+2; nargs++ {
+				for ai, as := range argSets {
+					if ai > 0 && nargs == 0 {
+						continue
+					}
+					args := strings.Join(as[:nargs], " ")
+					*k++
+					n := fmt.Sprintf("%d", *k)
+					defs := []struct{ def, callee string }{
+						{"(defn lz" + n + " [" + fl.formals + "] " + body + ")", "lz" + n},
+						{"(def lz" + n + " (fn [" + fl.formals + "] " + body + "))", "lz" + n},
+						{"", "(fn [" + fl.formals + "] " + body + ")"},
+						{"(defmac lz" + n + " [" + fl.formals + "] " + body + ")", "lz" + n},
+					}
+					for di, d := range defs {
+						s.add(d.def+" ("+d.callee+" "+args+")", "", "programs:arity")
+						if di < 2 {
+							s.add(d.def+" (apply "+d.callee+" ["+args+"])", "", "programs:arity")
+							s.add(d.def+" (map "+d.callee+" ["+args+"])", "", "programs:arity")
+							s.add(d.def+" (defn w"+n+" [] ("+d.callee+" "+args+")) (w"+n+")", "", "programs:arity")
+						}
+					}
+				}
+			}
+		}
+	}
+}
+
+// ---- generated names: macros that need fresh names while they expand, scripts that spell the
+// next generated names themselves, followed by every consumer of GenSymbol ----------------------------
+
+var gensymConsumers = []struct{ prefix, form string }{
+	{"__gensym", "(gensym)"},
+	{"tmp", "(gensym \"tmp\")"},
+	{"", "(gensym \"\")"},
+	{"__anon", "(fn [] 2)"},
+	{"__anon", "(defn dK [] (fn [] 1))"},
+	{"__loop", "(for [(def j 0) (< j 1) (set j (+ j 1))] j)"},
+	{"__loop_lb_", "(for lb: [(def j 0) (< j 1) (set j (+ j 1))] j)"},
+	{"pq", "(package pq (def b 2))"},
+	{"__gensym", "(let [y (gensym)] y)"},
+}
+
+var gensymMacros = []string{
+	"(defmac hygK [] (let [g (gensym)] ^(def ~g 1)))",
+	"(defmac hygK [] (let [g (gensym \"tmp\")] ^(def ~g 1)))",
+	"(defmac hygK [] (let [g (gensym \"\")] ^(quote ~g)))",
+	"(defmac hygK [] (let [f (fn [] 1)] ^(quote ~(f))))",
+	"(defmac hygK [] (let [s 0] (for [(def i 0) (< i 1) (set i (+ i 1))] (set s i)) ^(quote ~s)))",
+	"(defmac hygK [] (let [s 0] (for lb: [(def i 0) (< i 1) (set i (+ i 1))] (set s i)) ^(quote ~s)))",
+	"(defmac hygK [] (let [p (package pq (def a 1))] ^1))",
+	"(defmac hygK [a] (let [g (gensym) h (gensym)] ^(let [~g ~a ~h ~g] ~h)))",
+}
+
+func buildGensym(s *listStream, k *int, tier string) {
+	inst := func(t string) string { return strings.ReplaceAll(t, "K", fmt.Sprintf("%d", *k)) }
+	for _, m := range gensymMacros {
+		call := "(hygK)"
+		if strings.Contains(m, "[a]") {
+			call = "(hygK 1)"
+		}
+		for _, c := range gensymConsumers {
+			for _, sep := range []string{" ", "\n"} { // one text, or one line each (REPL line protocol)
+				*k++
+				s.add(inst(m+sep+call+sep+c.form+sep+c.form), "", "programs:gensym-macro")
+				*k++
+				s.add(inst(m+sep+call+sep+call+sep+c.form), "", "programs:gensym-macro")
+			}
+		}
+	}
+	// the script spells the NEXT generated names itself: it reads the counter through symnum and interns
+	// prefix+(n+2) .. prefix+(n+40); the consumer then meets names that are already interned
+	for _, c := range gensymConsumers {
+		*k++
+		pre := inst("(def nK (symnum (gensym))) (for [(def iK 2) (< iK 40) (set iK (+ iK 1))] (str2sym (concat \"" + c.prefix + "\" (str (+ nK iK)))))")
+		s.add(pre+"\n"+inst(c.form)+"\n"+inst(c.form), "", "programs:gensym-spelled")
+		*k++
+		s.add(inst("(def nK (symnum (gensym))) (for [(def iK 2) (< iK 40) (set iK (+ iK 1))] (str2sym (concat \""+c.prefix+"\" (str (+ nK iK)))))")+" (eval (quote "+inst(c.form)+"))", "", "programs:gensym-spelled")
+	}
 }
